@@ -44,7 +44,7 @@ def tagger_module():
     return tm
 
 
-def run_tagger(argv, order=None, quiet=True, real_pool=False):
+def run_tagger(argv, order=None, quiet=True, real_pool=False, catch_interrupt=False):
     """Run run_multiome_tagging_cmd(argv).  With --multiprocess the Pool is a ScheduledPool whose completion
     order is `order` (None = submission order) unless real_pool.  Returns (exception or None, Schedule)."""
     tm = tagger_module()
@@ -62,7 +62,7 @@ def run_tagger(argv, order=None, quiet=True, real_pool=False):
                     with patched(tm, sch, names=('Pool',)):
                         tm.run_multiome_tagging_cmd(list(argv))
             except BaseException as e:   # SystemExit from argparse included
-                if isinstance(e, KeyboardInterrupt):
+                if isinstance(e, KeyboardInterrupt) and not catch_interrupt:
                     raise
                 exc = e
     finally:
